@@ -31,6 +31,7 @@ import (
 	"github.com/cosmos/cosmos-sdk/crypto/keys/ed25519"
 	sdk "github.com/cosmos/cosmos-sdk/types"
 	authtypes "github.com/cosmos/cosmos-sdk/x/auth/types"
+	banktypes "github.com/cosmos/cosmos-sdk/x/bank/types"
 	"github.com/cosmos/cosmos-sdk/x/gov"
 	govkeeper "github.com/cosmos/cosmos-sdk/x/gov/keeper"
 	govtypes "github.com/cosmos/cosmos-sdk/x/gov/types"
@@ -42,6 +43,7 @@ import (
 	tmproto "github.com/tendermint/tendermint/proto/tendermint/types"
 
 	"github.com/teleport-network/teleport/app"
+	aggtypes "github.com/teleport-network/teleport/x/aggregate/types"
 	tsstypes "github.com/teleport-network/teleport/x/xibc/clients/tss-client/types"
 	clienttypes "github.com/teleport-network/teleport/x/xibc/core/client/types"
 )
@@ -103,6 +105,14 @@ func newC15gWorld(t *testing.T) *c15gWorld {
 		w.vals = append(w.vals, acc)
 	}
 	staking.EndBlocker(ctx, a.StakingKeeper)
+	// a block proposer, so that module-initiated EVM calls (aggregate proposals) work in this world too
+	if v, found := a.StakingKeeper.GetValidator(ctx, sdk.ValAddress(w.vals[0])); found {
+		if ca, err := v.GetConsAddr(); err == nil {
+			h := ctx.BlockHeader()
+			h.ProposerAddress = ca.Bytes()
+			ctx = ctx.WithBlockHeader(h)
+		}
+	}
 	w.base = ctx
 	w.reset()
 	return w
@@ -178,6 +188,9 @@ func (w *c15gWorld) content(kind string) govtypes.Content {
 	switch kind {
 	case "textbad":
 		return govtypes.NewTextProposal("", "d")
+	case "regcoin": // an aggregate proposal whose handler makes a module-initiated EVM call (contract deployment)
+		return aggtypes.NewRegisterCoinProposal("t", "d", banktypes.Metadata{Description: "d", Name: "acoin", Symbol: "AC", Base: "acoin", Display: "acoin",
+			DenomUnits: []*banktypes.DenomUnit{{Denom: "acoin", Exponent: 0}}})
 	case "relayer":
 		return clienttypes.NewRegisterRelayerProposal("t", "d", w.accts[0].String(), []string{"chain-a"}, []string{"0xabc"})
 	case "tss":
@@ -401,17 +414,36 @@ func (w *c15gWorld) apply(r *Rec, op string) (string, string) {
 		r.Stats["gv.dropped"] += nInactive
 		line := strings.Join(append([]string{f[0], fmt.Sprint(len(ext) / 2)}, ext...), " ")
 		w.hist[len(w.hist)-1] = line + sfx
-		var pan bool
+		// the block's gas meter: nil (keeper-level context) or FINITE (max_gas = 10000000) and filled by the block's transactions
+		fill := raw["gas"]
+		for _, fl := range c15GasFills {
+			if fl.name == fill {
+				w.ctx = w.ctx.WithBlockGasMeter(c15FilledMeter(fl.used))
+			}
+		}
+		if fill == "" || fill == "nil" {
+			fill = "nil"
+			w.ctx = w.ctx.WithBlockGasMeter(nil)
+		}
+		r.Count("gv.gasfill." + fill)
+		for i := 1; i < len(ext); i += 2 {
+			if strings.HasPrefix(ext[i], "p:") {
+				r.Count("gv.gasfill.handler-run." + fill)
+			}
+		}
+		var pan, oog bool
 		var pm string
 		if f[0] == "endblock" {
-			pan, pm = safely(func() { gov.EndBlocker(w.ctx, gk) })
+			pan, pm, oog = c15SafelyGas(func() { gov.EndBlocker(w.ctx, gk) })
 		} else {
-			pan, pm = safely(func() { w.app.EndBlocker(w.ctx, abci.RequestEndBlock{Height: w.height}) })
+			pan, pm, oog = c15SafelyGas(func() { w.app.EndBlocker(w.ctx, abci.RequestEndBlock{Height: w.height}) })
 		}
 		r.Count("gv." + f[0])
 		if pan {
 			w.dead = true
-			if handlerPanics {
+			if oog {
+				w.finding(r, "C15:block-phase-panic:out-of-gas:gov-endblock:"+fill, "gov.EndBlocker panics under a finite block gas meter ("+fill+")", pm)
+			} else if handlerPanics {
 				w.finding(r, "C15:gov-endblock-panic:handler", "a proposal handler panics inside gov.EndBlocker", pm)
 			} else {
 				w.finding(r, "C15:gov-endblock-panic:deposits:"+c15class(pm), "gov.EndBlocker panics on its own deposit / tally / state-transition paths (through the bank adapter)", pm)
@@ -601,7 +633,7 @@ func c15gRunHistory(r *Rec, w *c15gWorld, emit func(op string)) {
 		voting, depositing := w.idsIn(govtypes.StatusVotingPeriod), w.idsIn(govtypes.StatusDepositPeriod)
 		switch x := r.Rng.Intn(100); {
 		case x < 24:
-			kind := c15pick(r, "text", "text", "text", "relayer", "tss", "tss", "textbad")
+			kind := c15pick(r, "text", "text", "text", "relayer", "tss", "tss", "textbad", "regcoin", "regcoin")
 			emit("submit 0 " + w.genWho(r) + " " + w.genCoins(r) + " 0 0 raw=kind:" + hxs(kind))
 			nextID++
 		case x < 40:
@@ -637,7 +669,7 @@ func c15gRunHistory(r *Rec, w *c15gWorld, emit func(op string)) {
 		case x < 76:
 			emit("advance " + c15pick(r, "0", "100", "172799", "172800", "172801", "86400", "200000"))
 		case x < 88:
-			emit(c15pick(r, "endblock", "endblock", "endblock", "appendblock") + " 0")
+			emit(c15pick(r, "endblock", "endblock", "endblock", "appendblock") + " 0 raw=gas:" + hxs(c15pick(r, "nil", "empty", "half", "limit-1000", "limit-1", "full")))
 		case x < 94:
 			emit("slash 0 0 0 0 raw=slash:" + hxs(fmt.Sprintf("%d %s %s", r.Rng.Intn(3), c15pick(r, "0", "0.000000000000000001", "0.01", "0.5", "1"), c15pick(r, "now", "old"))))
 		case x < 96: // burns out of the NOT-bonded pool: slash an unbonding delegation / an unbonding validator
@@ -660,7 +692,7 @@ func c15gRunHistory(r *Rec, w *c15gWorld, emit func(op string)) {
 	}
 	// every history ends with both periods elapsed and two EndBlockers
 	emit("advance 172800")
-	emit(c15pick(r, "endblock", "appendblock") + " 0")
+	emit(c15pick(r, "endblock", "appendblock") + " 0 raw=gas:" + hxs(c15pick(r, "nil", "empty", "half", "limit-1000", "limit-1", "full")))
 	emit("advance 172801")
-	emit("endblock 0")
+	emit("endblock 0 raw=gas:" + hxs(c15pick(r, "limit-1", "full", "limit-1000")))
 }
